@@ -71,8 +71,19 @@ def genuine_exchange(cfg, cl_, link, k):
         raise core.Failure("genuine-exchange-failed", "plain authenticated get failed on %s" % cfg.describe())
 
 
+def make_client(G, cfg, link, payload):
+    """Every other case builds the session the way the clients do after discovery: created without keys, then set_keys()."""
+    if (payload // 3) % 2 == 0:
+        return drivers.NbClient(G, cfg, link)
+    tmp = ag.Cfg("v3", user="", engine_id=cfg.engine_id)
+    c = drivers.NbClient(G, tmp, link)
+    c.sock.set_keys(*cfg.raw_args(cfg.engine_id))
+    c.cfg = cfg
+    return c
+
+
 def execute(G, cfg, op, cl, payload, link):
-    cl_ = drivers.NbClient(G, cfg, link)
+    cl_ = make_client(G, cfg, link, payload)
     link.recv_all()
     # history: 0..2 genuine exchanges first (a verdict cached from an earlier authentic reply must not leak to the forgery)
     for k in range(payload % 3):
@@ -166,7 +177,7 @@ def run(rep, tier):
         for auth, priv, cl, op in grid():
             cfg = ag.Cfg("v3", user="user", engine_id=gen.ENGINE_IDS[total % len(gen.ENGINE_IDS)], auth=auth, priv=priv,
                          auth_kt="localized", priv_kt="localized")
-            for payload in (1, 2, 3):
+            for payload in (1, 2, 3, 4):
                 try:
                     res = execute(G, cfg, op, cl, payload, link)
                 except core.Failure as f:
